@@ -66,7 +66,14 @@ func (h *NFSProcedureHandler) handleRead(body io.Reader, reply *RPCReply, authCt
 	}
 	xdrEncodeUint32(&buf, uint32(len(data)))
 
-	if int64(offset)+int64(len(data)) >= attrs.Size {
+	// Read stops at the end of the file, so a reply shorter than what was
+	// asked for ended there when it was read, even if a concurrent WRITE has
+	// extended the file by the time attrs were fetched.
+	wanted := int64(count)
+	if ts := int64(h.server.handler.tuning.Load().TransferSize); ts > 0 && wanted > ts {
+		wanted = ts
+	}
+	if int64(len(data)) < wanted || int64(offset)+int64(len(data)) >= attrs.Size {
 		xdrEncodeUint32(&buf, 1) // EOF = TRUE
 	} else {
 		xdrEncodeUint32(&buf, 0) // EOF = FALSE
